@@ -33,6 +33,8 @@ const (
 	kIter   // a local iterator variable `it := x.Iterator()`: stands for the enumeration list Enum
 	kCmp    // a comparator function value (utils.Comparator[T]): GoCmp.comparator; never called by translated code
 	kCmpRef // reflect.ValueOf(comparator) / its .Pointer(): only compared, with the abstract same_comparator
+	kBytes  // []byte: GoJson.bytes (only passed around)
+	kErr    // error: bool (true = a non-nil error); only its nil-ness is modelled
 	kNode   // *Node of an abstract tree: GoCmp.node = option (Z * Z) (nil, or key and value)
 )
 
@@ -99,26 +101,28 @@ type param struct {
 }
 
 type funcInfo struct {
-	Unit       *unit
-	Name       string
-	Coq        string
-	Decl       *ast.FuncDecl
-	Recv       *structInfo
-	RecvName   string
-	TypeParms  map[string]bool
-	Params     []param
-	Results    []param // Name == "" when unnamed
-	Writes     bool
-	Abs        *absIface       // method of an abstract interface (no body)
-	OpaqueRecv string          // method of an opaque receiver type (translated as a function of the abstract value)
-	Static     bool            // ... a package-level function of the abstract container's package (constructor)
-	Variadic   bool            // the last parameter is variadic (a slice)
-	Partial    bool            // may panic or runs a fuelled loop: result is an option
-	Fuel       bool            // takes a fuel parameter
-	Needs      map[string]bool // container fields needed as parameters
-	callees    []*funcInfo
-	orderDeps  []*funcInfo
-	text       string // emitted Gallina
+	Unit        *unit
+	Name        string
+	Coq         string
+	Decl        *ast.FuncDecl
+	Recv        *structInfo
+	RecvName    string
+	TypeParms   map[string]bool
+	Params      []param
+	Results     []param // Name == "" when unnamed
+	Writes      bool
+	Abs         *absIface // method of an abstract interface (no body)
+	External    bool      // an untranslated method of a struct of this unit: a parameter <Struct>_ext_<name>
+	OpaqueIface *absIface
+	OpaqueRecv  string          // method of an opaque receiver type (translated as a function of the abstract value)
+	Static      bool            // ... a package-level function of the abstract container's package (constructor)
+	Variadic    bool            // the last parameter is variadic (a slice)
+	Partial     bool            // may panic or runs a fuelled loop: result is an option
+	Fuel        bool            // takes a fuel parameter
+	Needs       map[string]bool // container fields needed as parameters
+	callees     []*funcInfo
+	orderDeps   []*funcInfo
+	text        string // emitted Gallina
 }
 
 type unit struct {
@@ -126,6 +130,8 @@ type unit struct {
 	File      *ast.File
 	Files     []*ast.File
 	ExtraSha  []string
+	TypeDecls []*ast.GenDecl // type declarations read from Spec.StructFiles
+	Externals []*funcInfo    // untranslated methods of own structs, called through parameters
 	Dir       string
 	Imports   map[string]string // local package name -> directory relative to repo
 	Structs   []*structInfo
@@ -134,6 +140,8 @@ type unit struct {
 	IterEnums []*structInfo       // structs whose Iterator() is an abstract enumeration (Section variable)
 	UsesMap   bool                // GoMap.v is needed
 	UsesCmp   bool                // GoCmp.v is needed
+	UsesJson  bool                // encoding/json as abstract functions (GoJson.v, Section Json)
+	UsesNilP  bool                // slice == nil in a capacity-aware unit: parameter slice_is_nil
 	UsesSame  bool                // reflect-based comparator identity: parameter same_comparator
 	UsesMO    bool                // some function ranges over a map (map_order)
 	PkgVars   map[string]ast.Expr // package-level variables with an initialiser
@@ -148,6 +156,9 @@ type unit struct {
 
 func (u *unit) allDecls() []ast.Decl {
 	var ds []ast.Decl
+	for _, gd := range u.TypeDecls {
+		ds = append(ds, gd)
+	}
 	for _, f := range u.Files {
 		ds = append(ds, f.Decls...)
 	}
@@ -385,6 +396,22 @@ func (t *translator) opaqueIface(u *unit, name string, at token.Pos) *absIface {
 	return a
 }
 
+// an untranslated method of struct s (declared somewhere in the package): its signature is read from the source
+func (t *translator) externalMethod(u *unit, s *structInfo, name string, mut bool, at token.Pos) *funcInfo {
+	for _, x := range u.Externals {
+		if x.Recv == s && x.Name == name {
+			return x
+		}
+	}
+	probe := &absIface{Field: s.Name, Dir: u.Dir, Type: s.Name, Pure: map[string]bool{}, Methods: map[string]*funcInfo{}, unit: u}
+	sig := t.absFunc(probe, name, false, at)
+	fi := &funcInfo{Unit: u, Name: name, Coq: s.Name + "_ext_" + name, Decl: sig.Decl, Recv: s, RecvName: "_", Needs: map[string]bool{},
+		TypeParms: sig.TypeParms, Params: sig.Params, Results: sig.Results, Variadic: sig.Variadic, Writes: mut, External: true, text: "(* external *)"}
+	u.Externals = append(u.Externals, fi)
+	t.funcs = append(t.funcs, fi)
+	return fi
+}
+
 func isNodePtr(e ast.Expr) bool {
 	s, ok := e.(*ast.StarExpr)
 	if !ok {
@@ -513,6 +540,13 @@ func (t *translator) coqType(x ty, from *unit) string {
 		return "(" + strings.Join(parts, " -> ") + ")"
 	case kTuple:
 		return t.resultType(x.Results, from)
+	case kBytes:
+		if from != nil {
+			from.UsesJson = true
+		}
+		return "GoJson.bytes"
+	case kErr:
+		return "bool"
 	case kCmp, kCmpRef:
 		if from != nil {
 			from.UsesCmp = true
@@ -553,6 +587,10 @@ func zero(x ty) (string, bool) {
 		return "false", true
 	case kSlice:
 		return "(@Datatypes.nil Z)", true
+	case kErr:
+		return "false", true
+	case kBytes:
+		return "GoJson.nil_bytes", true
 	}
 	return "", false // a nil map is not modelled (writing to it panics)
 }
@@ -701,6 +739,8 @@ func (t *translator) resolveType(e ast.Expr, c tctx) ty {
 			return ty{K: kInt}
 		case "bool":
 			return ty{K: kBool}
+		case "error":
+			return ty{K: kErr}
 		}
 		if c.tparm[x.Name] {
 			return ty{K: kElem}
@@ -747,6 +787,10 @@ func (t *translator) resolveType(e ast.Expr, c tctx) ty {
 	case *ast.ArrayType:
 		if x.Len != nil {
 			t.unsupported(x.Pos(), "fixed-size array type")
+		}
+		if id, ok := x.Elt.(*ast.Ident); ok && id.Name == "byte" {
+			c.u.UsesJson = true
+			return ty{K: kBytes}
 		}
 		el := t.resolveType(x.Elt, c)
 		if el.K != kElem && el.K != kInt {
@@ -920,7 +964,7 @@ func (f *fx) rebind(n string, e env) {
 		// the caller would see this through the pointer / the shared backing array: not modelled
 		f.bad(f.fi.Decl.Pos(), "%s modifies its parameter %s (a struct pointer, slice or map): effects on the caller's value are not modelled", f.fi.Name, n)
 	}
-	if f.fi.Recv != nil && n == f.fi.RecvName && !f.fi.Writes {
+	if (f.fi.Recv != nil || f.fi.OpaqueRecv != "") && n == f.fi.RecvName && !f.fi.Writes {
 		// safety net: the syntactic write analysis and the translation must agree
 		f.bad(f.fi.Decl.Pos(), "internal: %s modifies its receiver but was analysed as read-only", f.fi.Name)
 	}
@@ -1111,8 +1155,21 @@ func (f *fx) expr(x ast.Expr, e env) (string, ty) {
 			}
 			if other != nil {
 				s, ts := f.expr(other, e)
+				if ts.K == kErr {
+					if n.Op == token.NEQ {
+						return s, ty{K: kBool}
+					}
+					return "(negb " + s + ")", ty{K: kBool}
+				}
+				if ts.K == kSlice && f.capMode() {
+					f.u.UsesNilP = true
+					if n.Op == token.EQL {
+						return "(slice_is_nil " + s + ")", ty{K: kBool}
+					}
+					return "(negb (slice_is_nil " + s + "))", ty{K: kBool}
+				}
 				if ts.K != kNode {
-					f.bad(n.Pos(), "comparison with nil of something that is not a tree node")
+					f.bad(n.Pos(), "comparison with nil of something that is not a tree node, an error or (capacity-aware units) a slice")
 				}
 				if n.Op == token.NEQ {
 					return "(GoCmp.node_nonnil " + s + ")", ty{K: kBool}
@@ -1457,6 +1514,85 @@ func (f *fx) tryExpr(x ast.Expr, e env) (string, ty) {
 	return "", ty{K: kTuple}
 }
 
+// encoding/json as abstract functions (parameters of the generated definitions, Section Json):
+//
+//	json.Marshal(x)       -> marshal_slice x / marshal_map x : bytes * error
+//	json.Unmarshal(d, &x) is a STATEMENT form (see jsonUnmarshal): it assigns x
+func (f *fx) jsonCall(c *ast.CallExpr, name string, e env) (string, []ty, *funcInfo) {
+	f.u.UsesJson = true
+	switch name {
+	case "Marshal":
+		if len(c.Args) != 1 || c.Ellipsis != token.NoPos {
+			f.bad(c.Pos(), "json.Marshal with an unexpected argument list")
+		}
+		arg := c.Args[0]
+		if u, ok := arg.(*ast.UnaryExpr); ok && u.Op == token.AND { // json.Marshal(&m) encodes m
+			arg = u.X
+		}
+		s, ts := f.expr(arg, e)
+		switch ts.K {
+		case kSlice:
+			if f.capMode() {
+				return "(marshal_slice (GoSlice.sl_list " + s + "))", []ty{{K: kBytes}, {K: kErr}}, nil
+			}
+			return "(marshal_slice " + s + ")", []ty{{K: kBytes}, {K: kErr}}, nil
+		case kMap:
+			f.u.UsesMap = true
+			return "(marshal_map " + s + ")", []ty{{K: kBytes}, {K: kErr}}, nil
+		}
+		f.bad(c.Pos(), "json.Marshal of something that is not a slice or a map")
+	case "Unmarshal":
+		f.bad(c.Pos(), "json.Unmarshal anywhere else than as `err := json.Unmarshal(data, &x)` / `json.Unmarshal(data, &x)`")
+	}
+	f.bad(c.Pos(), "json.%s (only Marshal and Unmarshal are modelled; Decoder / Token / More are not)", name)
+	return "", nil, nil
+}
+
+// [err :=|=] json.Unmarshal(data, &x): x (a slice or map variable or field) receives what the abstract decoder
+// returns for (data, old value of x) -- on an error too, where Go may leave x partially filled
+func (f *fx) jsonUnmarshal(c *ast.CallExpr, e env) (prefix string, errTemp string, e2 env, ok bool) {
+	sel, isSel := c.Fun.(*ast.SelectorExpr)
+	if !isSel || sel.Sel.Name != "Unmarshal" {
+		return "", "", e, false
+	}
+	id, isId := sel.X.(*ast.Ident)
+	if !isId || id.Name != "json" || f.u.Imports["json"] != "<std>/json" {
+		return "", "", e, false
+	}
+	if _, shadow := e.vars["json"]; shadow {
+		return "", "", e, false
+	}
+	f.u.UsesJson = true
+	if len(c.Args) != 2 {
+		f.bad(c.Pos(), "json.Unmarshal with %d arguments", len(c.Args))
+	}
+	d, td := f.expr(c.Args[0], e)
+	if td.K != kBytes {
+		f.bad(c.Args[0].Pos(), "json.Unmarshal of something that is not a []byte")
+	}
+	u, isAddr := c.Args[1].(*ast.UnaryExpr)
+	if !isAddr || u.Op != token.AND {
+		f.bad(c.Args[1].Pos(), "json.Unmarshal into something that is not &x")
+	}
+	cur, tc := f.expr(u.X, e)
+	var fn string
+	switch tc.K {
+	case kSlice:
+		fn = "unmarshal_slice"
+		if f.capMode() {
+			fn = "unmarshal_cslice"
+		}
+	case kMap:
+		fn = "unmarshal_map"
+		f.u.UsesMap = true
+	default:
+		f.bad(c.Args[1].Pos(), "json.Unmarshal into something that is not a slice or a map")
+	}
+	tv, te := f.fresh(), f.fresh()
+	p, e3 := f.assign(u.X, tv, tc, false, e)
+	return "let '(" + tv + ", " + te + ") := (" + fn + " " + d + " " + cur + ") in\n" + p, te, e3, true
+}
+
 func (f *fx) sliceLit(els []string) string {
 	if f.capMode() {
 		if len(els) == 0 {
@@ -1634,7 +1770,24 @@ func (f *fx) call(c *ast.CallExpr, e env) (string, []ty, *funcInfo) {
 			return f.apply(c, info, "", nil, e)
 		}
 		f.bad(c.Pos(), "call of %s (not a whitelisted function, len, make or a function-typed parameter)", fn.Name)
+	case *ast.ArrayType: // []byte("...")
+		if id, ok := fn.Elt.(*ast.Ident); ok && fn.Len == nil && id.Name == "byte" && len(c.Args) == 1 {
+			if lit, ok := c.Args[0].(*ast.BasicLit); ok && lit.Kind == token.STRING {
+				sv, err := strconv.Unquote(lit.Value)
+				if err != nil || strings.ContainsAny(sv, "\"\\\n") {
+					f.bad(c.Pos(), "string literal %s", lit.Value)
+				}
+				f.u.UsesJson = true
+				return "(GoJson.lit \"" + sv + "\"%string)", []ty{{K: kBytes}}, nil
+			}
+		}
+		f.bad(c.Pos(), "conversion to a slice type other than []byte(\"literal\")")
 	case *ast.SelectorExpr:
+		if id, ok := fn.X.(*ast.Ident); ok && id.Name == "json" && f.u.Imports["json"] == "<std>/json" {
+			if _, shadow := e.vars["json"]; !shadow {
+				return f.jsonCall(c, fn.Sel.Name, e)
+			}
+		}
 		if id, ok := fn.X.(*ast.Ident); ok && id.Name == "reflect" && fn.Sel.Name == "ValueOf" && f.u.Imports["reflect"] == "<std>/reflect" && len(c.Args) == 1 {
 			if _, shadow := e.vars["reflect"]; !shadow {
 				s, ts := f.expr(c.Args[0], e)
@@ -1675,6 +1828,11 @@ func (f *fx) call(c *ast.CallExpr, e env) (string, []ty, *funcInfo) {
 			f.bad(c.Pos(), "iterator used as a value")
 		}
 		if tr.K == kAbs {
+			for _, g := range f.t.funcs {
+				if g.Unit == f.u && g.OpaqueRecv != "" && g.OpaqueIface == tr.A && g.Name == fn.Sel.Name {
+					return f.apply(c, g, rs, fn.X, e)
+				}
+			}
 			info := f.t.absMethod(tr.A, fn.Sel.Name, c.Pos())
 			return f.apply(c, info, rs, fn.X, e)
 		}
@@ -1682,6 +1840,11 @@ func (f *fx) call(c *ast.CallExpr, e env) (string, []ty, *funcInfo) {
 			f.bad(c.Pos(), "method call .%s on something that is not a whitelisted struct", fn.Sel.Name)
 		}
 		info := f.t.findMethod(tr.S, fn.Sel.Name)
+		if info == nil && tr.S.Unit == f.u {
+			if mut, ok := f.u.Spec.External[fn.Sel.Name]; ok {
+				info = f.t.externalMethod(f.u, tr.S, fn.Sel.Name, mut, c.Pos())
+			}
+		}
 		if info == nil {
 			f.bad(c.Pos(), "call of %s.%s, which is not a whitelisted (translated) method", tr.S.Name, fn.Sel.Name)
 		}
@@ -1714,6 +1877,11 @@ func (f *fx) apply(c *ast.CallExpr, info *funcInfo, recv string, recvExpr ast.Ex
 	if info.Abs != nil && !info.Static {
 		s += " " + recv
 	}
+	params := info.Params
+	if info.OpaqueRecv != "" {
+		s += " " + recv
+		params = params[1:]
+	}
 	if info.Recv != nil {
 		s += " " + recv
 		for _, cf := range info.Recv.containers() {
@@ -1737,7 +1905,7 @@ func (f *fx) apply(c *ast.CallExpr, info *funcInfo, recv string, recvExpr ast.Ex
 	packed := ""
 	if info.Variadic && c.Ellipsis == token.NoPos {
 		// f(a, b, c) with a variadic last parameter: the extra arguments are a fresh slice
-		fixed := len(info.Params) - 1
+		fixed := len(params) - 1
 		if len(args) < fixed {
 			f.bad(c.Pos(), "call of %s with too few arguments", info.Name)
 		}
@@ -1751,12 +1919,12 @@ func (f *fx) apply(c *ast.CallExpr, info *funcInfo, recv string, recvExpr ast.Ex
 		}
 		packed = f.sliceLit(els)
 		args = args[:fixed]
-	} else if len(args) != len(info.Params) {
+	} else if len(args) != len(params) {
 		f.bad(c.Pos(), "call of %s with a wrong number of arguments", info.Name)
 	}
 	for i, a := range args {
 		as, ta := f.expr(a, e)
-		if ta.K != info.Params[i].Ty.K {
+		if ta.K != params[i].Ty.K {
 			f.bad(a.Pos(), "argument of unexpected type")
 		}
 		s += " " + as
@@ -1975,7 +2143,13 @@ func (f *fx) stmts(ss []ast.Stmt, e env, k cont, top bool) string {
 			}
 			t := f.t.resolveType(vs.Type, tctx{f.u, f.fi.TypeParms})
 			z, okz := f.zeroOf(t)
-			if !okz || (t.K == kSlice && !f.capMode()) {
+			if t.K == kMap { // var m map[K]V: a nil map, read-only until json.Unmarshal allocates it: modelled as the empty map
+				z, okz = "GoMap.gm_empty", true
+			}
+			if t.K == kSlice && !f.capMode() { // var xs []T: the nil slice = the empty list
+				z, okz = "(@Datatypes.nil Z)", true
+			}
+			if !okz {
 				f.bad(vs.Pos(), "var of a type without a modelled zero value")
 			}
 			for _, nm := range vs.Names {
@@ -2024,6 +2198,9 @@ func (f *fx) stmts(ss []ast.Stmt, e env, k cont, top bool) string {
 					return p + next(e2)
 				}
 			}
+		}
+		if p, _, e2, ok := f.jsonUnmarshal(c, e); ok { // the error is dropped
+			return p + next(e2)
 		}
 		if id, isId := c.Fun.(*ast.Ident); isId && id.Name == "panic" {
 			if !f.fi.Partial {
@@ -2141,6 +2318,15 @@ func (f *fx) assignStmt(n *ast.AssignStmt, e env, next cont) string {
 			}
 		}
 	}
+	// err := json.Unmarshal(data, &x)
+	if len(n.Lhs) == 1 && len(n.Rhs) == 1 {
+		if c, ok := n.Rhs[0].(*ast.CallExpr); ok {
+			if p, te, e2, ok := f.jsonUnmarshal(c, e); ok {
+				q, e3 := f.assign(n.Lhs[0], te, ty{K: kErr}, define, e2)
+				return p + q + next(e3)
+			}
+		}
+	}
 	// v, ok = m[k]
 	if len(n.Lhs) == 2 && len(n.Rhs) == 1 {
 		if ix, ok := n.Rhs[0].(*ast.IndexExpr); ok {
@@ -2249,6 +2435,18 @@ func (f *fx) ret(n *ast.ReturnStmt, e env) string {
 	}
 	var vals []string
 	for i, r := range n.Results {
+		if id, ok := r.(*ast.Ident); ok && id.Name == "nil" {
+			if _, shadow := e.vars["nil"]; !shadow {
+				switch res[i].Ty.K {
+				case kErr:
+					vals = append(vals, "false")
+					continue
+				case kBytes:
+					vals = append(vals, "GoJson.nil_bytes")
+					continue
+				}
+			}
+		}
 		v, tv := f.expr(r, e)
 		if tv.K != res[i].Ty.K || (tv.K == kStruct && tv.S != res[i].Ty.S) {
 			f.bad(r.Pos(), "returned value of unexpected type")
@@ -2337,15 +2535,21 @@ func (f *fx) forStmt(n *ast.ForStmt, rest []ast.Stmt, e env, k cont, next cont, 
 		start, ts := f.expr(init.Rhs[0], e)
 		f.want(init.Rhs[0], ts, kInt)
 		cond, ok := n.Cond.(*ast.BinaryExpr)
-		if !ok || (cond.Op != token.LSS && cond.Op != token.LEQ) {
-			f.bad(n.Pos(), "for loop whose condition is not `i < bound` / `i <= bound`")
+		down := false
+		if ok && cond.Op == token.GEQ { // for i := a; i >= b; i--
+			if post, isPost := n.Post.(*ast.IncDecStmt); isPost && post.Tok == token.DEC {
+				down = true
+			}
+		}
+		if !ok || (cond.Op != token.LSS && cond.Op != token.LEQ && !down) {
+			f.bad(n.Pos(), "for loop whose condition is not `i < bound` / `i <= bound` (or `i >= bound` with i--)")
 		}
 		if ci, ok := cond.X.(*ast.Ident); !ok || ci.Name != iv.Name {
 			f.bad(n.Pos(), "for loop whose condition is not `i < bound` / `i <= bound`")
 		}
 		post, ok := n.Post.(*ast.IncDecStmt)
-		if !ok || post.Tok != token.INC {
-			f.bad(n.Pos(), "for loop whose post statement is not `i++`")
+		if !ok || (post.Tok != token.INC && !down) || (down && post.Tok != token.DEC) {
+			f.bad(n.Pos(), "for loop whose post statement is not `i++` (`i--` for a downward loop)")
 		}
 		if pi, ok := post.X.(*ast.Ident); !ok || pi.Name != iv.Name {
 			f.bad(n.Pos(), "for loop whose post statement is not `i++`")
@@ -2361,7 +2565,9 @@ func (f *fx) forStmt(n *ast.ForStmt, rest []ast.Stmt, e env, k cont, next cont, 
 		// the values the loop variable takes: start, start+1, ... (< bound or <= bound)
 		lit, isLit := init.Rhs[0].(*ast.BasicLit)
 		var rangeTerm string
-		if isLit && lit.Value == "0" && cond.Op == token.LSS {
+		if down { // start, start-1, ..., bound
+			rangeTerm = "(List.map (fun k : nat => " + start + " - Z.of_nat k) (List.seq 0 (Z.to_nat ((" + start + " + 1) - " + bound + "))))"
+		} else if isLit && lit.Value == "0" && cond.Op == token.LSS {
 			rangeTerm = "(List.map Z.of_nat (List.seq 0 (Z.to_nat " + bound + ")))"
 		} else {
 			count := "(" + bound + " - " + start + ")"
@@ -2780,7 +2986,9 @@ func (f *fx) retType() string {
 		rs = append(rs, r.Ty)
 	}
 	s := f.t.resultType(rs, f.u)
-	if f.fi.Writes {
+	if f.fi.Writes && f.fi.OpaqueRecv != "" {
+		s = "(" + f.t.coqType(ty{K: kAbs, A: f.fi.OpaqueIface}, f.u) + " * " + s + ")"
+	} else if f.fi.Writes {
 		s = "(" + mangle(f.fi.Recv.Name) + " * " + s + ")"
 		if f.fi.Recv.Unit != f.u {
 			s = "(" + f.fi.Recv.coqName(f.u) + " * " + f.t.resultType(rs, f.u) + ")"
@@ -2830,7 +3038,7 @@ func (t *translator) translateFunc(fi *funcInfo) {
 		}
 		e = e.with(p.Name, p.Ty)
 		pv := e.vars[p.Name]
-		pv.param = true
+		pv.param = !(fi.OpaqueRecv != "" && p.Name == fi.RecvName)
 		e.vars[p.Name] = pv
 		binders = append(binders, "("+vname(p.Name)+" : "+t.coqType(p.Ty, fi.Unit)+")")
 	}
